@@ -110,6 +110,23 @@ def class_id_roots(flow, fq="stabilizer_circuits.get_readout_circuit"):
     return out
 
 
+def _evidently_not_stabilizer(prog, f, expr, stab):
+    """receiver of a dynamic attribute access that is evidently something else than a Stabilizer: a local bound to a
+    constructor call of another class / an external constructor, or annotated with another type"""
+    if not isinstance(expr, ast.Name):
+        return False
+    types = prog.local_types(f)
+    if expr.id in types:
+        return types[expr.id] is not stab
+    for n in ast.walk(f.node):
+        if isinstance(n, ast.arg) and n.arg == expr.id and n.annotation is not None:
+            return "Stabilizer" not in ast.unparse(n.annotation)
+    asg = [n for n in ast.walk(f.node) if isinstance(n, ast.Assign) and len(n.targets) == 1 and isinstance(n.targets[0], ast.Name) and n.targets[0].id == expr.id]
+    if asg and all(isinstance(a.value, ast.Call) and isinstance(a.value.func, ast.Name) and a.value.func.id[:1].isupper() and a.value.func.id != "Stabilizer" for a in asg):
+        return True
+    return False
+
+
 def NI1_sign_independence(rep, flow, root_fq="stabilizer_circuits.get_readout_circuit", roots=None, what="the readout API"):
     rep.rule("NI1", f"no expression in the over-approximated call closure of {what} reads the stabilizer's sign field (directly, via getattr/vars, or through a method that reads it); diagnostics sinks excluded", floor=30 if roots is None else 10)
     prog = flow.prog
@@ -130,7 +147,9 @@ def NI1_sign_independence(rep, flow, root_fq="stabilizer_circuits.get_readout_ci
                 reads.append(n)
             elif isinstance(n, ast.Attribute) and n.attr == "__dict__":
                 reads.append(n)
-            elif isinstance(n, ast.Call) and isinstance(n.func, ast.Name) and n.func.id in ("getattr", "vars"):
+            elif isinstance(n, ast.Call) and isinstance(n.func, ast.Name) and n.func.id in ("getattr", "vars") and n.args:
+                if _evidently_not_stabilizer(prog, f, n.args[0], stab):
+                    continue
                 if n.func.id == "vars" or (len(n.args) > 1 and not (isinstance(n.args[1], ast.Constant) and n.args[1].value not in fields)):
                     reads.append(n)
         # a store `self.phases[row] = 1` loads the attribute in order to store through it: not a read of its value
